@@ -779,3 +779,37 @@ pub fn markers_family(bases: &[usize]) -> Vec<Grammar> {
     }
     out
 }
+
+/// CHOICE-TAIL: an ordered choice at the end of a non-start rule whose first alternative can fail after a
+/// partial match and whose last alternative is nullable, in three contexts. (Backtracking directly before a
+/// rule closes: the trailing-trivia bookkeeping restored by the truncation decides where the node ends.)
+pub fn choice_tail_family() -> Vec<Grammar> {
+    let firsts = [
+        cat(vec![tok(1), tok(2)]),
+        cat(vec![tok(1), tok(1)]),
+        cat(vec![tok(1), tok(2), tok(2)]),
+        cat(vec![tok(1), rf(2)]),
+    ];
+    let lasts = [opt(tok(1)), star(tok(1)), opt(tok(2)), opt(cat(vec![tok(1), tok(0)])), Rx::Paren(None)];
+    let mut out = vec![];
+    for f in &firsts {
+        for l in &lasts {
+            for ctx in 0..3 {
+                let choice = par(cho(vec![f.clone(), l.clone()]));
+                let s = match ctx {
+                    0 => rf(1),
+                    1 => cat(vec![rf(1), tok(2)]),
+                    _ => star(rf(1)),
+                };
+                let mut rules = vec![("s", false, Some(s)), ("x", false, Some(cat(vec![tok(0), choice])))];
+                if f.contains(&|r| matches!(r, Rx::Ref(2))) {
+                    rules.push(("y", false, Some(cat(vec![tok(2), tok(2)]))));
+                } else {
+                    // keep rule indices stable: no third rule
+                }
+                out.push(grammar(3, rules));
+            }
+        }
+    }
+    out
+}
